@@ -31,6 +31,18 @@ theorem gate_v1_sound (U : Univ) (cfg : Cfg) (q : Req) (r : BResp) (bs : List Na
       bs.map (fun b => (U b).cid) = q.hdrs.map (fun b => (U b).cid) :=
   gateBatch_ok_false cfg q r bs h
 
+/-- a **truncated** (or over-long) answer — e.g. a genuine prefix of the batch, no field
+corrupted — never reaches the manager on either path: the request is retried with another peer
+(if it were accepted, the next batch would lack its parent and its honest sender would be blamed) -/
+theorem truncated_batch_not_accepted (U : Univ) (cfg : Cfg) (q : Req) (cp : Option CpResp) (bs : List Nat)
+    (hl : bs.length ≠ q.hdrs.length) : gateBatch U cfg q ⟨cp, some bs⟩ = .retry := by
+  unfold gateBatch
+  simp only []
+  cases cp <;> repeat' split
+  all_goals first
+    | rfl
+    | (rename_i h; simp_all)
+
 /-- **at or above the require height** a batch reaches `AddValidatedV2Blocks` only if the
 checkpoint answer is a v2 block with one miner payout, carrying the requested ID, whose
 commitment matches the supplied state, the right number of blocks ending in the request's tip
